@@ -90,6 +90,9 @@ func init() {
 		"(reflect.Value).Convert": func(fr *frame, a []value) value {
 			dst := a[1].(iface).v.(rtype).t
 			src := rV2T(a[0]).t
+			if src == nil || !types.ConvertibleTo(src, dst) {
+				panic(rtErr(fr, fmt.Sprintf("reflect.Value.Convert: value of type %v cannot be converted to type %v", src, dst)))
+			}
 			if types.IdenticalIgnoreTags(dst.Underlying(), src.Underlying()) {
 				return makeReflectValue(dst, rV2V(a[0])) // same representation (named <-> unnamed)
 			}
